@@ -291,6 +291,16 @@ func ruleST2(c *Ctx) {
 	if red == nil {
 		return
 	}
+	// relative spellings (--dir .., a relative start) are made absolute against the working directory: that only
+	// names one place if the process never changes its working directory
+	chdir := ""
+	for _, f := range c.Fns {
+		for _, call := range callsNamed(f, "os.Chdir", "syscall.Chdir", "syscall.Fchdir", "(*os.File).Chdir") {
+			chdir = c.Name(f) + " at " + c.Pos(call.Pos())
+		}
+	}
+	c.check(chdir == "", "<module>", "cwd-never-changed", "-", "no call changes the process working directory",
+		"the working directory is changed ("+chdir+"): a relative --dir is then resolved against the new directory (`--dir ..` starts two levels up), so the same spelling names different stores for different commands")
 	a := &absState{c: c, memo: map[ssa.Value]int{}}
 	fn := c.Name(red)
 	// the walk: the value joined with ".ergo" and Stat'ed must be absolute
